@@ -279,11 +279,11 @@ def run(ck, ix, tier):
     for w in wrappers:
         ck.analysed(w)
         cfg = cfg_of(w)
-        tests = [n.id for n in cfg.nodes if n.kind == "test" and node_has(n, lambda x: isinstance(x, ast.Call) and call_name(x) == "check")]
-        ck.floor("G-DOM", len(tests), 1, "`.check(dim)` test in registry_helpers.check.wrapper")
-        for t in tests:
-            neg = isinstance(cfg.nodes[t].ast, ast.UnaryOp) and isinstance(cfg.nodes[t].ast.op, ast.Not)
-            lab = "t" if neg else "f"
+        from .. import shape as _s3
+        is_check = lambda a: isinstance(a, ast.Call) and call_name(a) == "check"
+        failed = _s3.guard_edges(cfg, is_check, want=False)
+        ck.floor("G-DOM", len(failed), 1, "tested `.check(dim)` outcome in registry_helpers.check.wrapper")
+        for (t, lab) in failed:
             p = edge_leads_only_to_raise(cfg, t, lab)
             ck.check(p is None, "G-DOM", "registry_helpers.check|failed-check-raises", w.loc(cfg.nodes[t].ast),
                      "a failed dimension check raises", "a failed dimension check can still call the function", witness(cfg, p))
